@@ -27,6 +27,12 @@ func GoType(sp string, i int) string {
 		return "time.Time"
 	case SpIface:
 		return fmt.Sprintf("I%d", i)
+	case SpAnon:
+		return fmt.Sprintf("struct{ H, X%d uint64 }", i)
+	case SpArray:
+		return fmt.Sprintf("[%d]uint64", i+1)
+	case SpFunc:
+		return fmt.Sprintf("func(B%d) uint64", i)
 	}
 	return fmt.Sprintf("S%d", i)
 }
@@ -50,6 +56,12 @@ func MkExpr(sp string, i int, h string) string {
 		return fmt.Sprintf("mkT(%s)", h)
 	case SpIface:
 		return fmt.Sprintf("I%d(S%d{H: %s})", i, i, h)
+	case SpAnon:
+		return fmt.Sprintf("struct{ H, X%d uint64 }{H: %s}", i, h)
+	case SpArray:
+		return fmt.Sprintf("[%d]uint64{%s}", i+1, h)
+	case SpFunc:
+		return fmt.Sprintf("mkF%d(%s)", i, h)
 	}
 	return fmt.Sprintf("S%d{H: %s}", i, h)
 }
@@ -71,6 +83,12 @@ func HashExpr(sp string, i int, v string) string {
 		return fmt.Sprintf("hT(%s)", v)
 	case SpIface:
 		return fmt.Sprintf("hI(%s)", v)
+	case SpAnon:
+		return fmt.Sprintf("%s.H", v)
+	case SpArray:
+		return fmt.Sprintf("%s[0]", v)
+	case SpFunc:
+		return fmt.Sprintf("hF%d(%s)", i, v)
 	}
 	return fmt.Sprintf("%s.H", v)
 }
@@ -85,6 +103,7 @@ func TypesFile(pkg string) string {
 	for i := 0; i < NTypes; i++ {
 		fmt.Fprintf(&b, "type S%d struct{ H uint64 }\ntype B%d uint64\n", i, i)
 		fmt.Fprintf(&b, "type I%d interface{ Hv() uint64 }\nfunc (s S%d) Hv() uint64 { return s.H }\n", i, i)
+		fmt.Fprintf(&b, "func mkF%d(h uint64) func(B%d) uint64 { return func(B%d) uint64 { return h } }\nfunc hF%d(f func(B%d) uint64) uint64 {\n\tif f == nil {\n\t\treturn 0\n\t}\n\treturn f(0)\n}\n", i, i, i, i, i)
 		fmt.Fprintf(&b, "type BS%d []B%d\ntype BM%d map[B%d]B%d\n", i, i, i, i, (i+1)%NTypes)
 		fmt.Fprintf(&b, "func hP%d(p *S%d) uint64 {\n\tif p == nil {\n\t\treturn 0\n\t}\n\treturn p.H\n}\n", i, i)
 		fmt.Fprintf(&b, "func hL%d(s []S%d) uint64 {\n\tif len(s) == 0 {\n\t\treturn 0\n\t}\n\treturn s[0].H\n}\n", i, i)
